@@ -442,6 +442,8 @@ func GenCase(p *Profile) *rapid.Generator[Case] {
 			c.Cfg.NameSet = 0
 			curNameSet = 0
 			maxOps = p.MinOps + 6
+		} else if c.Cfg.NameSet == len(NameSets)-1 {
+			maxOps = p.MinOps + 10 // every Flush writes a 70 KB root record: keep these histories short
 		} else if thoroughTier && uni(t, 8, "long") == 0 {
 			maxOps *= 5 // the thorough tier also explores long histories (deeper trees, more versions)
 		}
